@@ -1,6 +1,434 @@
-"""Loop summarisation for `for` loops whose trip count is symbolic (see DESIGN 3.3)."""
-from .values import Unsupported
+"""Summarisation of `for` loops whose trip count is symbolic (DESIGN 3.3).
+
+The body is executed ONCE at a generic iteration ``k`` (lo <= k < hi).  Two shapes are
+recognised, in any mixture and nested:
+
+* map writes   ``T[affine(k)] = e(k)`` where the body never reads T: the loop is the
+  bulk update  ``T[i] = e(kinv(i))`` for the indices hit; side conditions (index affine with
+  unit coefficient => injective; distinct write statements hit disjoint cells) are proved,
+  not assumed.
+* accumulators ``s = s + e(k)`` where ``e`` does not read ``s``: ``s = s0 + Sum(lo, hi, e)``.
+
+Scalars assigned before use are iteration-local temporaries.  Anything else (carried
+non-additive state, reads of a written array, break/continue/return, a data-dependent
+branch that is not merged) makes the obligation *unsupported* -- never a verdict.
+"""
+import ast
+import z3
+
+from . import values as V
+from .values import Cx, Arr, Arr2, Unsupported
+
+
+class WriteRec:
+    """for every index idx with eqs/conds true: arr[idx] := val(idx)"""
+
+    def __init__(self, arr, eqs, conds, val, order):
+        self.arr = arr
+        self.eqs = eqs        # {axis: term}
+        self.conds = conds    # list of fn(idx tuple) -> cond
+        self.val = val        # fn(idx tuple) -> value
+        self.order = order
+
+    def pred(self, idx):
+        c = True
+        for ax, t in self.eqs.items():
+            c = V.b_and(c, V.s_eq(idx[ax], t))
+        for f in self.conds:
+            c = V.b_and(c, f(idx))
+        return c
+
+
+class LoopCtx:
+    def __init__(self, var, lo, hi, step):
+        self.var = var
+        self.lo, self.hi, self.step = lo, hi, step
+        self.records = []
+        self.guards = []
+        self.targets = {}     # id(arr) -> arr (arrays written in the body)
+        self.read_marks = {}
+        V._Hooks.epoch += 1
+        self.epoch = V._Hooks.epoch
+
+
+def _mentions(term, var):
+    from .z3dom import _collect_consts, zconst
+    if V.is_conc(term):
+        return False
+    used = set()
+    if isinstance(term, Cx):
+        return _mentions(term.re, var) or _mentions(term.im, var)
+    _collect_consts(zconst(term), used)
+    return var.e.get_id() in used
+
+
+def _subst(v, var, repl):
+    from .z3dom import subst
+    if isinstance(v, (Arr, Arr2)):
+        raise Unsupported("array-valued loop state")
+    return subst(v, [(var, repl)])
+
+
+def _simpl(t):
+    from .z3dom import lower, zconst
+    if V.is_conc(t):
+        return t
+    return lower(z3.simplify(zconst(t), som=True))
+
+
+def assigned_names(stmts):
+    out = []
+    for st in stmts:
+        for n in ast.walk(st):
+            if isinstance(n, (ast.Assign, ast.AugAssign, ast.AnnAssign)):
+                tgts = n.targets if isinstance(n, ast.Assign) else [n.target]
+                for t in tgts:
+                    for x in ast.walk(t):
+                        if isinstance(x, ast.Name) and isinstance(x.ctx, ast.Store):
+                            if x.id not in out:
+                                out.append(x.id)
+            elif isinstance(n, ast.For):
+                for x in ast.walk(n.target):
+                    if isinstance(x, ast.Name) and x.id not in out:
+                        out.append(x.id)
+    return out
 
 
 def summarise_for(interp, st, it, frame):
-    raise Unsupported("for loop over a symbolic range (line %d): no summarisation rule applies" % st.lineno)
+    from .interp import RangeVal, BreakSig, ContinueSig, ReturnSig, RaiseSig
+    d = interp.dom
+    if not hasattr(d, "loop_params"):
+        raise Unsupported("symbolic loop in a domain without summarisation")
+    if not isinstance(it, RangeVal) or it.step not in (1, -1) or not isinstance(st.target, ast.Name) or st.orelse:
+        raise Unsupported("for loop over a symbolic iterable (line %d)" % st.lineno)
+    if it.step == 1:
+        lo, hi = it.lo, it.hi
+    else:
+        lo, hi = it.hi + 1, it.lo + 1
+    k = d.fresh_int("k")
+    ctx = LoopCtx(k, lo, hi, it.step)
+    stack = getattr(interp, "loop_stack", None)
+    if stack is None:
+        stack = interp.loop_stack = []
+    mark = len(interp.pc)
+    ndec = len(interp.decisions)
+    interp.assume(V.b_and(V.s_cmp(">=", k, lo), V.s_cmp("<", k, hi)))
+    names = assigned_names(st.body)
+    before = {}
+    carried_in = {}
+    for nm in names:
+        if nm == st.target.id:
+            continue
+        if nm in frame.locals:
+            v0 = frame.locals[nm]
+            before[nm] = v0
+            if isinstance(v0, (Arr, Arr2)):
+                continue        # rebinding an array name inside the body is checked below
+            if not V.is_num(v0):
+                continue
+            if isinstance(v0, Cx):
+                sym = Cx(d.fresh_real("cin"), d.fresh_real("cin"))
+            elif V.s_is_int(v0):
+                sym = d.fresh_int("cin")
+            else:
+                sym = d.fresh_real("cin")
+            carried_in[nm] = sym
+            frame.locals[nm] = sym
+    frame.locals[st.target.id] = k
+    stack.append(ctx)
+    d.loop_params.append(k)
+    interp.merge_mode += 1
+    try:
+        try:
+            interp.exec_block(st.body, frame)
+        except (BreakSig, ContinueSig, ReturnSig):
+            raise Unsupported("break/continue/return inside a summarised loop (line %d)" % st.lineno)
+        except RaiseSig as r:
+            raise Unsupported("exception %s on the generic iteration of a summarised loop (line %d)" % (r.exc, st.lineno))
+    finally:
+        interp.merge_mode -= 1
+        d.loop_params.pop()
+        stack.pop()
+    if len(interp.decisions) != ndec:
+        interp.check_uniform(ndec, mark)
+    del interp.pc[mark:]
+
+    # the body must not have read an array it writes
+    for arr, cnt in ctx.read_marks.values():
+        if getattr(arr, "_nreads", 0) != cnt:
+            raise Unsupported("summarised loop reads an array it writes (line %d)" % st.lineno)
+
+    ran = V.s_cmp(">", hi, lo)
+    last = (hi - 1) if it.step == 1 else lo
+    # ---- scalars
+    for nm in names:
+        if nm == st.target.id:
+            continue
+        out = frame.locals.get(nm)
+        if isinstance(out, (Arr, Arr2)):
+            if nm in before and before[nm] is out:
+                continue
+            if _arr_mentions(out, k) or any(_arr_mentions(out, s) for s in _flat(carried_in.values())):
+                raise Unsupported("array re-bound inside a summarised loop (line %d)" % st.lineno)
+            continue
+        if out is None or not V.is_num(out):
+            continue
+        if nm in carried_in:
+            sym = carried_in[nm]
+            v0 = before[nm]
+            syms = _flat([sym])
+            if not any(_mentions(out, s) for s in syms):
+                # iteration-local temporary
+                val_last = _subst(out, k, last)
+                frame.locals[nm] = V.s_ite(ran, val_last, v0) if ran is not True else val_last
+                continue
+            delta = _simpl_val(out - sym)
+            if any(_mentions(delta, s) for s in syms):
+                raise Unsupported("loop-carried variable %s is not an additive accumulator (line %d)" % (nm, st.lineno))
+            others = [s for n2, s2 in carried_in.items() if n2 != nm for s in _flat([s2])]
+            if any(_mentions(delta, s) for s in others):
+                raise Unsupported("accumulator %s depends on another carried variable (line %d)" % (nm, st.lineno))
+            tot = d.sum(lo, hi, lambda j, delta=delta: _subst(delta, k, j))
+            frame.locals[nm] = v0 + tot
+        else:
+            others = [s for s2 in carried_in.values() for s in _flat([s2])]
+            if any(_mentions(out, s) for s in others):
+                raise Unsupported("temporary %s depends on a carried variable (line %d)" % (nm, st.lineno))
+            frame.locals[nm] = _subst(out, k, last)
+    # values written to arrays must not depend on carried-in symbols unless already resolved
+    csyms = [s for s2 in carried_in.values() for s in _flat([s2])]
+    frame.locals[st.target.id] = last
+
+    # ---- array writes
+    recs = ctx.records
+    new_recs = []
+    for w in recs:
+        new_recs.append(_solve(w, k, lo, hi, csyms, st))
+    _check_disjoint(interp, new_recs, st)
+    if stack:
+        outer = stack[-1]
+        for w in new_recs:
+            w.order = len(outer.records)
+            outer.records.append(w)
+            outer.targets[id(w.arr)] = w.arr
+            if id(w.arr) not in outer.read_marks:
+                outer.read_marks[id(w.arr)] = (w.arr, getattr(w.arr, "_nreads", 0))
+    else:
+        for w in new_recs:
+            _apply(w)
+
+
+def _flat(vals):
+    out = []
+    for v in vals:
+        if isinstance(v, Cx):
+            out += [v.re, v.im]
+        else:
+            out.append(v)
+    return [x for x in out if not V.is_conc(x)]
+
+
+def _simpl_val(v):
+    if isinstance(v, Cx):
+        return Cx(_simpl(v.re), _simpl(v.im))
+    return _simpl(v)
+
+
+def _arr_mentions(a, var):
+    try:
+        if isinstance(a, Arr):
+            probe = a.at(V.dom().fresh_int("pm"))
+        else:
+            probe = a.at(V.dom().fresh_int("pm"), V.dom().fresh_int("pm"))
+    except Exception:
+        return True
+    return _mentions(probe, var) if V.is_num(probe) else True
+
+
+def _solve(w, k, lo, hi, csyms, st):
+    """eliminate the loop variable from a write record"""
+    solved_axis = None
+    kinv = None
+    for ax, t in w.eqs.items():
+        if not _mentions(t, k):
+            continue
+        c1 = _simpl(t - k)
+        if not _mentions(c1, k):
+            solved_axis, kinv = ax, (lambda idx, ax=ax, c1=c1: idx[ax] - c1)
+            break
+        c2 = _simpl(t + k)
+        if not _mentions(c2, k):
+            solved_axis, kinv = ax, (lambda idx, ax=ax, c2=c2: c2 - idx[ax])
+            break
+    if solved_axis is None:
+        # location independent of k
+        probe_idx = tuple(V.dom().fresh_int("pi") for _ in range(2))
+        dep = any(_mentions(t, k) for t in w.eqs.values())
+        if dep:
+            raise Unsupported("write index is not affine with unit coefficient in the loop variable (line %d)" % st.lineno)
+        raise Unsupported("loop writes the same cell on every iteration (line %d)" % st.lineno)
+    eqs = {ax: t for ax, t in w.eqs.items() if ax != solved_axis}
+    new_eqs = {}
+    extra_conds = []
+    for ax, t in eqs.items():
+        if _mentions(t, k):
+            extra_conds.append(lambda idx, ax=ax, t=t: V.s_eq(idx[ax], _subst(t, k, kinv(idx))))
+        else:
+            new_eqs[ax] = t
+    conds = [(lambda idx, f=f: _subst_cond(f(idx), k, kinv(idx))) for f in w.conds] + extra_conds
+    conds.append(lambda idx: V.b_and(V.s_cmp(">=", kinv(idx), lo), V.s_cmp("<", kinv(idx), hi)))
+    old_val = w.val
+
+    def val(idx):
+        v = old_val(idx)
+        if any(_mentions(v, s) for s in csyms):
+            raise Unsupported("value stored by a summarised loop depends on loop-carried state (line %d)" % st.lineno)
+        return _subst(v, k, kinv(idx))
+    # check eagerly at a probe index so that unsupported shapes are detected now
+    nd = 1 if isinstance(w.arr, Arr) else 2
+    probe = tuple(V.dom().fresh_int("pw") for _ in range(nd))
+    val(probe)
+    return WriteRec(w.arr, new_eqs, conds, val, w.order)
+
+
+def _subst_cond(c, k, repl):
+    from .z3dom import subst
+    if isinstance(c, bool):
+        return c
+    return subst(c, [(k, repl)])
+
+
+def _check_disjoint(interp, recs, st):
+    d = interp.dom
+    for a in range(len(recs)):
+        for b in range(a + 1, len(recs)):
+            if recs[a].arr is not recs[b].arr:
+                continue
+            nd = 1 if isinstance(recs[a].arr, Arr) else 2
+            idx = tuple(d.fresh_int("dj") for _ in range(nd))
+            both = V.b_and(recs[a].pred(idx), recs[b].pred(idx))
+            if both is False:
+                continue
+            if both is True or not d.quick_unsat(list(interp.pc) + d.facts + [both.e], timeout_ms=5000):
+                raise Unsupported("two write statements of a summarised loop may hit the same cell (line %d); "
+                                  "a precondition separating them is missing" % st.lineno)
+
+
+def _apply(w):
+    arr = w.arr
+    arr._write_guard() if isinstance(arr, Arr) else None
+    dt = arr.dtype
+    old = arr.snap()
+    if isinstance(arr, Arr):
+        f = lambda i: V.s_ite(w.pred((i,)), V.cast_to(w.val((i,)), dt), old(i))
+        if isinstance(arr.n, int) and arr.n <= getattr(V.dom(), "materialise_limit", 0):
+            arr.items = [f(i) for i in range(arr.n)]
+            arr.fn = None
+        else:
+            arr.items = None
+            arr.fn = f
+    else:
+        arr.rows = None
+        arr.fn = lambda i, j: V.s_ite(w.pred((i, j)), V.cast_to(w.val((i, j)), dt), old(i, j))
+
+
+# ---------------------------------------------------------------------------------
+# hooks used by the interpreter while a summarised body runs
+
+
+def record_setitem(interp, cont, idx, val):
+    """called instead of mutating ``cont`` when a summarised loop body stores into it"""
+    ctx = interp.loop_stack[-1]
+    if id(cont) not in ctx.read_marks:
+        ctx.read_marks[id(cont)] = (cont, getattr(cont, "_nreads", 0))
+    ctx.targets[id(cont)] = cont
+    guards = list(ctx.guards)
+    gconds = [(lambda idx_, g=g: g) for g in guards]
+    order = len(ctx.records)
+    if isinstance(cont, Arr):
+        if isinstance(idx, tuple) and idx and idx[0] == "slice":
+            raise Unsupported("slice assignment inside a summarised loop")
+        if isinstance(val, (Arr, Arr2)):
+            raise Unsupported("array stored into a 1-D cell inside a summarised loop")
+        i = V.norm_index(idx, cont.n)
+        V.check_index(i, cont.n)
+        ctx.records.append(WriteRec(cont, {0: i}, gconds, lambda idx_, v=val: v, order))
+        return
+    if isinstance(cont, Arr2):
+        if isinstance(idx, tuple) and not (idx and idx[0] == "slice"):
+            r, c = idx
+            if isinstance(r, tuple) or isinstance(c, tuple):
+                raise Unsupported("region assignment inside a summarised loop")
+            r = V.norm_index(r, cont.r)
+            c = V.norm_index(c, cont.c)
+            V.check_index(r, cont.r)
+            V.check_index(c, cont.c)
+            if isinstance(val, (Arr, Arr2)):
+                raise Unsupported("array stored into a cell")
+            ctx.records.append(WriteRec(cont, {0: r, 1: c}, gconds, lambda idx_, v=val: v, order))
+            return
+        if isinstance(idx, tuple):
+            raise Unsupported("row-slice assignment inside a summarised loop")
+        # C[i] = row
+        r = V.norm_index(idx, cont.r)
+        V.check_index(r, cont.r)
+        if isinstance(val, Arr):
+            interp.dom.require_eq(val.n, cont.c, "row assignment length")
+            s = val.snap()
+            ncols = cont.c
+            conds = gconds + [lambda idx_: V.b_and(V.s_cmp(">=", idx_[1], 0), V.s_cmp("<", idx_[1], ncols))]
+            ctx.records.append(WriteRec(cont, {0: r}, conds, lambda idx_, s=s: s(idx_[1]), order))
+            return
+        raise Unsupported("row assignment of a non-array")
+    raise Unsupported("store into %r inside a summarised loop" % type(cont).__name__)
+
+
+def merge_if(interp, st, c, frame):
+    """if/else on a symbolic condition inside a summarised body: run both arms, merge"""
+    from .interp import BreakSig, ContinueSig, ReturnSig, RaiseSig
+    ctx = interp.loop_stack[-1] if getattr(interp, "loop_stack", None) else None
+    saved = dict(frame.locals)
+    results = []
+    for arm, cond in ((st.body, c), (st.orelse, V.b_not(c))):
+        frame.locals.clear()
+        frame.locals.update(saved)
+        mark = len(interp.pc)
+        interp.pc.append(cond.e)
+        if ctx is not None:
+            ctx.guards.append(cond)
+        try:
+            # an arm that is infeasible under the path condition is skipped
+            feasible = not interp.dom.quick_unsat(list(interp.pc) + interp.dom.facts, timeout_ms=3000)
+            if feasible:
+                try:
+                    interp.exec_block(arm, frame)
+                except (BreakSig, ContinueSig, ReturnSig, RaiseSig) as e:
+                    raise Unsupported("control transfer (%s) in a branch of a summarised loop body" % type(e).__name__)
+            results.append((feasible, dict(frame.locals)))
+        finally:
+            if ctx is not None:
+                ctx.guards.pop()
+            del interp.pc[mark:]
+    (f1, l1), (f2, l2) = results
+    frame.locals.clear()
+    if not f1:
+        frame.locals.update(l2)
+        return
+    if not f2:
+        frame.locals.update(l1)
+        return
+    for nm in set(l1) | set(l2):
+        a, b = l1.get(nm, _MISSING), l2.get(nm, _MISSING)
+        if a is b:
+            frame.locals[nm] = a
+        elif a is _MISSING:
+            frame.locals[nm] = b
+        elif b is _MISSING:
+            frame.locals[nm] = a
+        elif V.is_num(a) and V.is_num(b):
+            frame.locals[nm] = V.s_ite(c, a, b)
+        else:
+            raise Unsupported("cannot merge variable %s of the two arms" % nm)
+
+
+_MISSING = object()
